@@ -739,19 +739,18 @@ impl TransactionBuilder {
         }
 
         // after finalizing the improvement we need to actually add these results to the builder
-        for output in outputs.iter() {
-            if let Some(associated) = associated_indices.get(output) {
-                for i in associated.iter() {
-                    let input = &available_inputs[*i];
-                    let input_fee = self.fee_for_input(
-                        &input.output.address,
-                        &input.input,
-                        &input.output.amount,
-                    )?;
-                    self.inputs.add_regular_utxo(&input)?;
-                    *input_total = input_total.checked_add(&input.output.amount)?;
-                    *output_total = output_total.checked_add(&Value::new(&input_fee))?;
-                }
+        // (one pass over the association map: equal outputs share one entry, whose inputs must be added once)
+        for associated in associated_indices.values() {
+            for i in associated.iter() {
+                let input = &available_inputs[*i];
+                let input_fee = self.fee_for_input(
+                    &input.output.address,
+                    &input.input,
+                    &input.output.amount,
+                )?;
+                self.inputs.add_regular_utxo(&input)?;
+                *input_total = input_total.checked_add(&input.output.amount)?;
+                *output_total = output_total.checked_add(&Value::new(&input_fee))?;
             }
         }
 
